@@ -112,6 +112,26 @@ def worker(case):
                 break
             if r.harness_error:
                 return core.verdict(cid, "inconclusive", detail="harness: %s" % r.harness_error, case=case)
+        if case.get("mc_zh") and not viols:
+            # second monitor: the uninstrumented build under valgrind memcheck (sees accesses made inside libzstd/libcrypto)
+            for pi, (mode, prog) in enumerate(case["progs"]):
+                if pi not in case["mc_progs"]:
+                    continue
+                files = {"f.zck": data, "good.zck": good, "good2.zck": core.unb64(case["good2"])}
+                r = core.run_zh(case["mc_zh"], cdir, script_for(prog, mode), files, name="m%d" % pi, cpu=core.MEMCHECK_CPU,
+                                prefix=core.memcheck_prefix(cdir, "vg%d" % pi))
+                stats["evaluations"] += 1
+                stats["memcheck_runs"] = stats.get("memcheck_runs", 0) + 1
+                if r.timed_out or r.cpu_exceeded:
+                    stats["memcheck_timeouts(inconclusive)"] = stats.get("memcheck_timeouts(inconclusive)", 0) + 1
+                    continue
+                ms, unin = core.memcheck_report(cdir, "vg%d" % pi)
+                stats["memcheck_uninitialised_observations(not counted)"] = stats.get("memcheck_uninitialised_observations(not counted)", 0) + unin
+                if not ms and r.sig is not None:
+                    ms = core.crash_signatures(r)
+                if ms:
+                    viols.append((ms[0], "memcheck, program %d (%s): %s" % (pi, mode, ms)))
+                    break
         if case.get("tools") and not viols:
             os.makedirs(os.path.join(cdir, "zd"), exist_ok=True)
             for name, argv in tool_runs(case["tools"], cdir):
@@ -148,12 +168,13 @@ def worker(case):
 
 class C03(core.Check):
     prop = "C03"
-    flavours = ["asan", "fuzz"]
+    flavours = ["asan", "fuzz", "plain"]
     rule = ("inputs: reference-writer boundary grid (every numeric field x {0,1,127,128,2^31-1,2^31,2^32,2^63,2^64-1, 10/11/16-byte, unterminated, missing}), "
             "headers cut at every byte with the declared size following the cut, length fields +-1/2 around their buffer end, flag-4 short indexes, "
             "C13's header generator, raw + re-sealed structural mutations of valid files - all with a correct header checksum unless raw; each run through "
             "6 fixed API programs (inspection, random access, validation+read, streaming, copy/match as source and as target, error-clear-continue) in "
-            "init_read and init_adv_read modes, 2 random programs, and (sampled) all tool invocations; stage 2: libFuzzer (re-sealing target) with ASan+UBSan. "
+            "init_read and init_adv_read modes, 2 random programs, and (sampled) all tool invocations; a sample of inputs again on the uninstrumented build under "
+            "valgrind memcheck (invalid accesses counted, uninitialised-value messages only recorded); stage 2: libFuzzer (re-sealing target) with ASan+UBSan. "
             "non-trivial = input that passed the header checksum gate in at least one consumer; distinct = (input bytes, programs)")
     assumptions = ["counted: ASan/UBSan reports, SIGSEGV/BUS/FPE/ILL/ABRT, CPU time > 20 s per process; not counted: leaks, nonnull-attribute, tool assert() on absurd allocation"]
     worker = staticmethod(worker)
@@ -161,7 +182,7 @@ class C03(core.Check):
     def prepare(self, fl):
         a = fl["asan"]
         tools = {t: a.tool(t) for t in ("unzck", "zck_read_header", "zck_delta_size", "zck_gen_zdict", "zckdl")}
-        ctx = {"zh": build.zh(a), "tools": tools}
+        ctx = {"zh": build.zh(a), "tools": tools, "mc_zh": build.zh(fl["plain"])}
         try:
             ctx["fz"] = self.build_fuzzer(fl["fuzz"])
         except build.BuildError as e:
@@ -233,6 +254,14 @@ class C03(core.Check):
             if (i % (8 if self.quick else 3)) == 0 or desc.startswith(("grid:chunk", "edge:", "c13:valid")):
                 tools = ctx["tools"]
             out.append({"desc": desc, "data": core.b64(data), "good": core.b64(self.good), "good2": core.b64(self.good2), "progs": progs, "zh": ctx["zh"], "tools": tools, "tool_subset": subset})
+        # memcheck sample: half from mutants of valid files (they get past the gate and into the decompressor), half from anywhere
+        rm = core.rng(self.seed, "C03", "memcheck")
+        deep = [c for c in out if not c["desc"].startswith(("grid:", "cut:", "edge:", "suite:"))]
+        n = 24 if self.quick else 1500
+        pick = rm.sample(deep, min(len(deep), n // 2)) + rm.sample(out, min(len(out), n - n // 2))
+        for c in pick:
+            c["mc_zh"] = ctx["mc_zh"]
+            c["mc_progs"] = sorted(rm.sample(range(len(c["progs"])), 3)) if self.quick else list(range(len(c["progs"])))
         return out
 
     def post(self, verdicts, ctx):
